@@ -243,7 +243,7 @@ pub fn c12(seed: u64, n: usize) {
         let last = *steps.last().unwrap();
         let park = Isometry3::from_parts(Translation3::from(last.translation.vector + Vector3::new(0.0, 0.0, 0.03)), last.rotation);
         // obstacle layouts: free, grazing (next to the stroke), blocking (plate across the stroke)
-        let layout = [0usize, 1, 2, 3, 4, 4][done % 6];
+        let layout = [0usize, 1, 3, 2, 4, 3, 4][done % 7];
         // (the grazed first step is visible in the result only when interpolated waypoints are returned)
         let include = layout == 4 || r.chance(0.6);
         let p_step = *r.pick(&[0.01, 0.02, 0.05]);
@@ -345,7 +345,8 @@ pub fn c12(seed: u64, n: usize) {
                 // the plan started AT this branch must land on this very branch (not on another one reached from it)
                 let lands_here = |path: &Vec<rs_opw_kinematics::cartesian::AnnotatedJoints>| path.iter()
                     .find(|w| w.flags.bits() & 16 != 0).map_or(false, |w| (0..6).all(|kk| (w.joints[kk] - s[kk]).abs() < 1e-9));
-                let alone = (0..2).all(|_| planner.plan(s, &land, steps.clone(), &park).map_or(false, |p| lands_here(&p)));
+                // (on one thread: the strategies are then tried in order of closeness to the start, this branch first)
+                let alone = (0..2).all(|_| in_pool2(1, || planner.plan(s, &land, steps.clone(), &park)).map_or(false, |p| lands_here(&p)));
                 if !alone { continue; }
                 let stop = AtomicBool::new(false);
                 let reach = (0..3).all(|_| planner.rrt.plan_rrt(&from, s, &k.kws, &stop).is_ok());
